@@ -327,7 +327,9 @@ func verifDir() string {
 
 func runWorker(scen string, base uint64, from, count int, tier string, samples int, timeout time.Duration) (lines []string, stderr string, err error) {
 	cmd := exec.Command(os.Args[0], "-test.run", "^TestWorker$", "-test.timeout", "0")
-	cmd.Env = append(os.Environ(), "NSIM_MODE=worker", "NSIM_SCEN="+scen, fmt.Sprintf("NSIM_BASE=%d", base),
+	// one OS thread per worker process: goroutine hand-offs stay on one thread (5x faster);
+	// the determinism self-check re-executes samples at GOMAXPROCS 1 and 4
+	cmd.Env = append(os.Environ(), "GOMAXPROCS=1", "NSIM_MODE=worker", "NSIM_SCEN="+scen, fmt.Sprintf("NSIM_BASE=%d", base),
 		fmt.Sprintf("NSIM_FROM=%d", from), fmt.Sprintf("NSIM_COUNT=%d", count), "NSIM_TIER="+tier, fmt.Sprintf("NSIM_SAMPLES=%d", samples))
 	var ob, eb bytes.Buffer
 	cmd.Stdout = &ob
@@ -605,7 +607,7 @@ func driverMain(prop string) int {
 				idx := strings.LastIndex(k, "/")
 				scen = k[:idx]
 				fmt.Sscanf(k[idx+1:], "%d", &i)
-				cmdEnvProcs := []string{"GOMAXPROCS=1", "GOMAXPROCS=4"}[i%2]
+				cmdEnvProcs := []string{"GOMAXPROCS=4", "GOMAXPROCS=16"}[(i/50)%2]
 				os.Setenv("NSIM_DUMMY", "")
 				cmd := exec.Command(os.Args[0], "-test.run", "^TestWorker$", "-test.timeout", "0")
 				cmd.Env = append(os.Environ(), cmdEnvProcs, "NSIM_MODE=worker", "NSIM_SCEN="+scen, fmt.Sprintf("NSIM_BASE=%d", base),
@@ -681,7 +683,14 @@ func driverMain(prop string) int {
 		reported = append(reported, rep)
 		nviol++
 		exit = 1
-		fmt.Printf("violation: property=%s sig=%s runs=%d first=%s#%d\n  %s\n", prop, sig, len(recs), first.Scen, first.I, first.V.Detail)
+		idx := ""
+		for i, r := range recs {
+			if i >= 12 {
+				break
+			}
+			idx += fmt.Sprintf(" %s#%d", r.Scen, r.I)
+		}
+		fmt.Printf("violation: property=%s sig=%s runs=%d first=%s#%d\n  %s\n  runs:%s\n", prop, sig, len(recs), first.Scen, first.I, first.V.Detail, idx)
 		if first.Crash {
 			fmt.Printf("  crash output:\n%s\n", indent(first.Stderr))
 		}
